@@ -9,7 +9,7 @@ RULE = ("complete shape grid T in [W,W+40], W in [1,12], N in [1,6] (2952 shapes
         "NaN payloads, denormals, int/float32 inputs); tuples of 1..6 series; split/pad round trips; non-trivial = distinct shape with W>=2 "
         "(rows overlap) or a multi-series tuple with >=2 series")
 ASSUMPTIONS = ["reference: numpy sliding_window_view; float64 compared through uint64 views"]
-SHARD_TIMEOUT = {"quick": 600, "thorough": 3000}
+SHARD_TIMEOUT = {"quick": 300, "thorough": 3000}
 FILLS = ["random", "inf", "negzero", "nanpayload", "denormal", "int", "float32", "mixed"]
 
 
